@@ -371,8 +371,9 @@ pub(crate) fn extract_code_block_start(line: &str) -> Option<(&str, &str, &str)>
             if index < 3 {
                 return None;
             }
-            // the info string of a fence holds no backtick: this is an inline code span
-            if line[index..].contains('`') {
+            // the info string of a fence holds no backtick in front of the inline
+            // configuration: this is an inline code span
+            if line[index..].split('{').next().is_some_and(|language| language.contains('`')) {
                 return None;
             }
             language_start = Some(index);
